@@ -369,7 +369,9 @@ def run(ctx):
                 # round trips double the messages in flight: singles only
                 red = [m for m in red if m[2] != 'rpc_round']
             for a, b in itertools.product(red, repeat=2):
-                if a[0] == b[0] or ctx.quick is False:
+                # quick, and two pilots: pairs on one channel; one pilot in
+                # the thorough tier: all pairs
+                if a[0] == b[0] or (not ctx.quick and n_pilots == 1):
                     _jobs.append((n_pilots, (a, b)))
     for res in seams.pmap(_job, range(len(_jobs)), ctx.workers, chunksize=4):
         ctx.merge(res)
